@@ -14,6 +14,7 @@ import Anko.Props.ConvFlowTable
 import Anko.Props.Tie.ConvFlow
 import Anko.Props.Tie.CallFlow
 import Anko.Props.Tie.BindFlow
+import Anko.Props.Tie.Inventory
 
 namespace Anko.C11
 open Anko.Conv
@@ -121,5 +122,14 @@ property is not overlooked. -/
 theorem source_tie_CallFlow : Gen.CallFlow.leaves = Tables.callFlow := Tie.callFlow
 /-- function literals, module, var and assignment statements -/
 theorem source_tie_BindFlow : Gen.BindFlow.leaves = Tables.bindFlow := Tie.bindFlow
+
+
+/-! ### Declaration inventory
+
+Nothing was added to the packages this property is anchored in: their top-level declarations (functions, methods, variables, constants, types with
+the fields of struct types), regenerated from /repo on this run, are the audited ones (Props/Tie/Inventory). A helper, a package-level table or a
+file added there - code no flow table can pin - breaks the tie by name and makes this property's check search for a failing input. -/
+/-- vm/ -/
+theorem declarations_of_Vm_are_the_audited_ones : Tie.ofPkg "vm" Gen.Inventory.decls = Tie.ofPkg "vm" Tables.inventory := Tie.inventoryVm
 
 end Anko.C11
